@@ -384,5 +384,13 @@ def run(pid, tier, seed):
     for name, rc in core.regress_cases(pid):
         for k, what in replay(pid, rc["case"]):
             camp.fail(k, what, rc["case"])
+    # every kind of line at the boundary itself (n = L and n = L + 1), independent of what the shards draw
+    for kind in COL_KINDS:
+        for depth in (1, 3):
+            ctx = {"kind": kind, "ftype": "c", "depth": depth, "nest_kw": "if", "salt": depth, "pos": "interior"}
+            for nn in (80, 81):
+                built = build_cols(None, kind, nn, ctx)
+                if built is not None:
+                    evaluate(camp, "cols", nn, ctx, built)
     camp.merge(core.run_shards(shard, [dict(seed=core.seed_of(seed, s, 3), n_ctx=n) for s in range(shards)]))
     return core.finish(pid, tier, seed, camp, RULE, t0, assumptions=["widths are visual columns of ASCII text, tab stops every 4"])
